@@ -5,7 +5,11 @@
            output: one result per permutation: addrinfo bytes, or -1 ("all backend is down")
          | [2 subs hash strategy key nvar]  BalanceGslb.Balance (SessionSticky, crossRetry 0) built in nvar different ways
              subs = [[name w backends] ...]; strategy/key only tell the harness how to place the key in the request
-           output: one result [sub r] per variant, r = addrinfo | -1 (no backend) | -2 (blackhole); or [x -3] (no sub-cluster) *)
+           output: one result [sub r] per variant, r = addrinfo | -1 (no backend) | -2 (blackhole); or [x -3] (no sub-cluster)
+         | [3 conf0 ops]   reload history on ONE BalanceRR: Init(conf0), conf = [[addrinfo w] ...],
+             ops = [0 hash key] sticky Balance -> addrinfo | -1 ;  [1 conf] BalanceRR.Update(conf) -> 0 ;
+                   [2 addrinfo b] SetAvail -> 0
+           output: one observation per operation *)
 From Coq Require Import List ZArith Bool.
 From Bfe Require Import lib.Val model.Sticky.
 Import ListNotations.
@@ -37,6 +41,24 @@ Definition dec_perms (n : nat) (v : val) : option (list (list Z)) :=
   | _ => None
   end.
 
+Definition dec_kw (v : val) : option (key * Z) :=
+  match v with VL [VB k; VZ w] => Some (k, w) | _ => None end.
+Definition dec_kconf (v : val) : option (list (key * Z)) :=
+  match v with VL l => all_some (map dec_kw l) | _ => None end.
+Definition dec_hop (v : val) : option hop :=
+  match v with
+  | VL [VZ 0; VZ h; VB _] => if (0 <=? h) && (h <? 2^64) then Some (HPick h) else None
+  | VL [VZ 1; c] => match dec_kconf c with Some conf => Some (HUpdate conf) | None => None end
+  | VL [VZ 2; VB k; VZ b] => Some (HAvail k (negb (b =? 0)))
+  | _ => None
+  end.
+Definition dec_hist (c ops : val) : option (list (key * Z) * list hop) :=
+  match dec_kconf c, ops with
+  | Some conf, VL l => match all_some (map dec_hop l) with Some os => Some (conf, os) | None => None end
+  | _, _ => None
+  end.
+Definition enc_hobs (o : option (option key)) : val :=
+  match o with Some (Some k) => VB k | Some None => VZ (-1) | None => VZ 0 end.
 Definition enc_okey (o : option key) : val := match o with Some k => VB k | None => VZ (-1) end.
 Definition enc_gres (g : gres) : val :=
   match g with
@@ -60,6 +82,11 @@ Definition run_C02 (i : val) : val :=
   | VL [VZ 2; ss; VZ h; VZ _; VB _; VZ n] =>
     match dec_subs ss with
     | Some subs => if wf_hash h && (0 <=? n) && (n <=? 8) then VL (repeat (enc_gres (gslb_pick subs h)) (Z.to_nat n)) else VErr 0
+    | None => VErr 0
+    end
+  | VL [VZ 3; c; ops] =>
+    match dec_hist c ops with
+    | Some (conf, os) => VL (map enc_hobs (hrun_by sticky (h_init conf) os))
     | None => VErr 0
     end
   | _ => VErr 0
@@ -88,6 +115,13 @@ Definition prop_C02 (i o : val) : bool :=
       wf_hash h && distinct_keys (map (fun s : subc => fst (fst s)) subs) &&
       forallb (fun s : subc => distinct_keys (map t_key (snd s))) subs &&
       (Z.of_nat (length outs) =? n) && all_eq (enc_gres (gslb_spec subs h)) outs
+    | None => false
+    end
+  (* history: after every Update / SetAvail the pick is the owner of the residue in the key-sorted eligible list of
+     the CURRENT configuration, i.e. what a freshly built balancer with that configuration returns *)
+  | VL [VZ 3; c; ops], _ =>
+    match dec_hist c ops with
+    | Some (conf, os) => val_eqb (VL (map enc_hobs (hrun_by (spec_pick 100 true) (h_init conf) os))) o
     | None => false
     end
   | _, _ => false
